@@ -45,6 +45,7 @@ func checkC08(r *Run) {
 	runMatchD1(r, gh, "tsr", false, pick(r, 5*time.Minute, 40*time.Minute))
 	runServeD1(r, newServeGen(r, rng), "C08", pick(r, 5*time.Minute, 40*time.Minute))
 	runServeD2(r, rng, "C08")
+	runServeDirtyStatic(r, rng)
 	r.assumption("Location is compared after RFC 3986 resolution against the request URL (net/url)")
 	r.assumption("CONNECT routes that ignore trailing slashes are not generated (DESIGN.md 7)")
 }
